@@ -22,13 +22,13 @@ type GOp struct {
 }
 
 type GHist struct {
-	Hash  bool  `json:"hash"` // *HV vertices (payload identity observable) or plain ints
+	Hash bool `json:"hash"` // *HV vertices (payload identity observable) or plain ints
 	// HashKey (with Hash): *HVK vertices, whose hash code is itself a value
 	// that implements VertexHashable (code that hashes a hash code again ends
 	// up somewhere else)
-	HashKey bool `json:"hashKey,omitempty"`
-	MaxID int   `json:"maxid"`
-	Ops   []GOp `json:"ops"`
+	HashKey bool  `json:"hashKey,omitempty"`
+	MaxID   int   `json:"maxid"`
+	Ops     []GOp `json:"ops"`
 }
 
 // model of one underlying store
